@@ -61,9 +61,10 @@ class QfInterp(CkInterp):
             self.cur_pc = z3.simplify(z3.And(self.cur_pc, some))
             return o.payload
         if fname == '<FixedBitSet as Index<usize>>::index':
+            # fixedbitset's Index is `contains(bit)`: an out-of-range index reads as false, it does not panic
             b = self.read_ref(a[0])
-            self.bounds('FixedBitSet index', a[1], len(b.bits))
-            return Ref((('val', self.sel(b.bits, a[1])), []))
+            inr = z3.ULT(a[1], bv(len(b.bits)))
+            return Ref((('val', z3.And(inr, self.sel(b.bits, a[1]))), []))
         if fname == 'FixedBitSet::len':
             return bv(len(self.read_ref(a[0]).bits))
         if fname == 'FixedBitSet::set':
